@@ -1,6 +1,6 @@
 ------------------------------ MODULE Trace_Text ------------------------------
 (* Trace validation for C17: text fields.                                       *)
-EXTENDS Text, Frame, Json, IOUtils, TLC
+EXTENDS Text, Frame, BitOps, Json, IOUtils, TLC
 
 Rec == ndJsonDeserialize(IOEnv.TRACE)
 VARIABLE l
@@ -25,6 +25,13 @@ TextRtOk(r) ==
          /\ IF Msg1029Accepts(stored)
             THEN /\ r.out = "ok" /\ Classify(r.frame) = "ok"
                  /\ r.dec = "Typed" /\ r.cps_dec = stored               \* comes back unchanged
+                 \* wire form (payload bit 57 on): 7-bit character count, 8-bit byte count, the UTF-8 bytes, zero padding
+                 /\ LET bytes == U8Bytes(stored)
+                        want == ToBitsU(Len(stored), 7) \o ToBitsU(Len(bytes), 8) \o BytesToBits(bytes)
+                        have == BufBits(r.frame, 24 + 57, 8 * DeclLen(r.frame) - 57) IN
+                    /\ Len(have) >= Len(want) /\ Len(have) - Len(want) < 8
+                    /\ SubSeq(have, 1, Len(want)) = want
+                    /\ AllZero(SubSeq(have, Len(want) + 1, Len(have)))
             ELSE IsErr(r.out)                                           \* more than 127 characters / 255 bytes: refused
     ELSE LET stored == Desc(r.cps_in, 31) IN
          /\ r.stored = stored
